@@ -215,10 +215,31 @@ DANGLE = [
     ('default_scene', rb'(<instance_visual_scene[^>]*url="#)[^"]*"', 'DaeBrokenRefError'),
     ('surface_image', rb'(<init_from>)img\d+(</init_from>)', 'DaeBrokenRefError'),
     ('sampler_surface', rb'(<source>)surf\d+(</source>)', 'DaeBrokenRefError'),
+    # the name exists in the effect's scope but is not a surface (an earlier sampler or float parameter): still dangling
+    ('sampler_surface_wrong_kind', None, 'DaeBrokenRefError'),
 ]
 
 
+def _wrong_kind(data):
+    import xml.etree.ElementTree as ET
+    root = ET.fromstring(data)
+    ns = root.tag.split('}')[0] + '}'
+    for eff in root.iter(ns + 'effect'):
+        earlier = []
+        for np_ in eff.iter(ns + 'newparam'):
+            samp = np_.find(ns + 'sampler2D')
+            if samp is not None and samp.find(ns + 'source') is not None and earlier:
+                samp.find(ns + 'source').text = earlier[-1]
+                ET.register_namespace('', ns[1:-1])
+                return ET.tostring(root)
+            if np_.find(ns + 'surface') is None:
+                earlier.append(np_.get('sid'))
+    return None
+
+
 def dangle(data, kind, pattern):
+    if kind == 'sampler_surface_wrong_kind':
+        return _wrong_kind(data)
     if kind in ('surface_image', 'sampler_surface'):
         new, n = re.subn(pattern, rb'\1nowhere_to_be_found\2', data, count=1)
     else:
@@ -261,6 +282,12 @@ def check_rename_save(seed):
             if r.random() < 0.7:
                 n += 1
                 o.id = 'rn%d_%s' % (n, name)
+    # effect-local ids: surfaces and samplers are referred to by sid from samplers and <texture>
+    for e in doc.effects:
+        for prm in e.params:
+            if hasattr(prm, 'id') and isinstance(prm.id, str) and r.random() < 0.7:
+                n += 1
+                prm.id = 'rn%d_param' % n
     b = io.BytesIO()
     try:
         doc.write(b)
@@ -288,6 +315,11 @@ def check_rename_save(seed):
         for p in e['params']:
             if p[0] == 'surface' and not p[2][1]:
                 bad.append('surface image -> %s' % p[2][0])
+            if p[0] == 'sampler2D' and not p[3]:
+                bad.append('sampler surface -> %s' % p[2])
+        for k, v in e.items():
+            if isinstance(v, list) and v and v[0] == 'map' and not v[2]:
+                bad.append('effect %s: <texture> of %s -> %s' % (e['id'], k, v[1]))
     if bad:
         return ('written-ref-dangling', 'after renaming, written references do not resolve inside the written document: %s' % bad[:4])
     return None
@@ -374,6 +406,19 @@ def run(ctx):
         res = check_dangling(data, kind, pat, exp)
         ctx.count('dangling:%s:%s' % (kind, 'skip' if res == 'skip' else 'run'))
         report(res, dict(kind='dangling', seed=seed, which=kind))
+    # kinds that need a particular shape of document: look for documents that have it
+    for i in range(ctx.n(25, 600)):
+        for _try in range(30):
+            seed = ctx.rng.randrange(10 ** 9)
+            data = docgen.generate(seed)
+            if _wrong_kind(data) is not None:
+                break
+        else:
+            continue
+        res = check_dangling(data, 'sampler_surface_wrong_kind', None, 'DaeBrokenRefError')
+        ctx.case(dict(kind='dangling', seed=seed, which='sampler_surface_wrong_kind'))
+        ctx.count('dangling:sampler_surface_wrong_kind:run')
+        report(res, dict(kind='dangling', seed=seed, which='sampler_surface_wrong_kind'))
     for i in range(ctx.n(40, 1500)):
         seed = ctx.rng.randrange(10 ** 9)
         ctx.case(dict(kind='rename', seed=seed))
